@@ -35,6 +35,9 @@ def run(repo: Repo, chk: Check):
     chk.guarded(rule_function_labels, repo, chk, "R05.d")
     chk.guarded(r05e, repo, chk)
     chk.guarded(r05f, repo, chk)
+    chk.rule("R05.j", "once remove_labels has turned labels into line numbers the listing keeps its line count: nothing inserts or removes a line afterwards, "
+                      "otherwise every jump lands one line off", floor=1)
+    chk.guarded(r05j, repo, chk)
     chk.rule("R05.g", "a stack kept by a pass while it compiles a construct (pushed in a handler, read as <stack>[-1] by break/continue or nested "
                       "constructs) is popped on every path to the handler's return", floor=1)
     from .shared import rule_stack_balance
@@ -442,6 +445,13 @@ def r05f(repo, chk):
             return None
         if isinstance(e, ast.Call) and norm(e.func) == "re.compile" and e.args:
             return e.args[0]
+        if isinstance(e, ast.Subscript) and isinstance(e.value, ast.Name):
+            # TABLE[label] with TABLE = {label: re.compile(..) for label in ..}
+            ids = live_ids(cfg, at)
+            ds = rd.at(ids[0], e.value.id) if ids else []
+            if len(ds) == 1 and ds[0].kind == "assign" and isinstance(ds[0].value, ast.DictComp):
+                return compiled_source(ds[0].value.value, cfg.nodes[ds[0].node].ast, depth + 1)
+            return None
         if isinstance(e, ast.Name):
             ids = live_ids(cfg, at)
             ds = rd.at(ids[0], e.id) if ids else []
@@ -484,10 +494,13 @@ def r05f(repo, chk):
         f = norm(c.func)
         if f in ("re.sub", "re.search", "re.finditer") and c.args:
             (subs if f == "re.sub" else searches).append(_RC(c, c.args[0], c.args[1:]))
-        elif isinstance(c.func, ast.Attribute) and c.func.attr in ("sub", "search") and isinstance(c.func.value, ast.Name):
+        elif isinstance(c.func, ast.Attribute) and c.func.attr in ("sub", "search", "finditer") and isinstance(c.func.value, ast.Name):
             src = compiled_source(c.func.value, c)
             if src is not None:
                 (subs if c.func.attr == "sub" else searches).append(_RC(c, src, c.args))
+    uses_regex = [c for c in ast.walk(fn) if isinstance(c, ast.Call) and isinstance(c.func, ast.Attribute) and c.func.attr in ("sub", "subn")]
+    if uses_regex and not subs:
+        raise AnalysisError("remove_labels: a regular-expression substitution is used but the pattern it is built from was not found")
     if subs:
         same = all(norm(s.args[0]) == norm(subs[0].args[0]) for s in subs + searches)
         chk.judge("R05.f", "generate_code:remove_labels:search and replacement use one pattern", same,
@@ -548,9 +561,11 @@ def r05f(repo, chk):
                     continue
                 if pol and isinstance(t_, ast.Call) and norm(t_.func) == "any" and len(t_.args) == 1 and isinstance(t_.args[0], (ast.GeneratorExp, ast.ListComp)) \
                         and len(t_.args[0].generators) == 1 and isinstance(t_.args[0].generators[0].iter, ast.Call) \
-                        and norm(t_.args[0].generators[0].iter.func) == "re.finditer" \
-                        and len(t_.args[0].generators[0].iter.args) == 2 and isinstance(t_.args[0].generators[0].iter.args[1], ast.Name) \
-                        and t_.args[0].generators[0].iter.args[1].id in line_vars and any(norm(q.call.func) == "re.finditer" for q in searches):
+                        and (norm(t_.args[0].generators[0].iter.func) == "re.finditer" or isinstance(t_.args[0].generators[0].iter.func, ast.Attribute)
+                             and t_.args[0].generators[0].iter.func.attr == "finditer") \
+                        and t_.args[0].generators[0].iter.args and isinstance(t_.args[0].generators[0].iter.args[-1], ast.Name) \
+                        and t_.args[0].generators[0].iter.args[-1].id in line_vars \
+                        and any(norm(q.call.func) == "re.finditer" or isinstance(q.call.func, ast.Attribute) and q.call.func.attr == "finditer" for q in searches):
                     continue    # 'some match of the same pattern is one that gets rewritten': the pre-check of the substitution itself
                 if pol and isinstance(t_, ast.Call) and isinstance(t_.func, ast.Attribute) and t_.func.attr == "search" and any(q.call is t_ or norm(q.call) == txt for q in searches):
                     continue    # the compiled form of the same pre-check
@@ -575,3 +590,56 @@ def r05f(repo, chk):
                 okr = bool(ds) and all(d.kind == "assign" and isinstance(d.value, ast.Call) and norm(d.value.func) == "str" for d in ds)
             chk.judge("R05.f", "generate_code:remove_labels:replacement is the decimal line index", okr,
                       f"replacement {norm(rep) if rep is not None else None} is not str(<line index>)", None, where)
+
+
+# ---------------------------------------------------------------------- R05.j
+def r05j(repo, chk, R="R05.j"):
+    g = repo.mod("generate_code")
+    qual = "CompilerPassGatherCode.get_code"
+    fn = g.func(qual)
+    chk.saw("generate_code", qual)
+    cfg, rd = fn_ctx(fn)
+    calls = [c for c in ast.walk(fn) if isinstance(c, ast.Call) and isinstance(c.func, ast.Attribute) and c.func.attr == "remove_labels"]
+    if not calls:
+        raise AnalysisError("get_code: the call of remove_labels was not found")
+    starts = []
+    for c in calls:
+        starts += live_ids(cfg, c)
+    after = set()
+    for st_ in starts:
+        after |= cfg.reachable(start=st_)
+    after -= set(starts)
+    bad = []
+    n_lists = 0
+    for n in cfg.nodes:
+        if n.id not in after or n.ast is None or n.kind not in ("stmt", "test", "iter", "return"):
+            continue
+        for x in ast.walk(n.ast):
+            # a list of the lines of the listing ...
+            if isinstance(x, ast.Call) and isinstance(x.func, ast.Attribute) and x.func.attr in ("insert", "append", "extend", "pop", "remove", "clear") \
+                    and isinstance(x.func.value, ast.Name):
+                ds = rd.at(n.id, x.func.value.id)
+                if ds and all(d.kind == "assign" and d.value is not None and isinstance(d.value, ast.Call) and isinstance(d.value.func, ast.Attribute)
+                              and d.value.func.attr in ("splitlines", "split") for d in ds):
+                    bad.append((x, f"{norm(x)[:60]} changes the number of lines"))
+            if isinstance(x, ast.Delete) and any(isinstance(t, ast.Subscript) for t in x.targets):
+                bad.append((x, f"{norm(x)[:60]} removes a line"))
+        # ... or the text itself gets a line in front / behind
+        if n.kind == "stmt" and isinstance(n.ast, (ast.Assign, ast.AugAssign)):
+            v = n.ast.value
+            for c_ in ast.walk(v):
+                if isinstance(c_, ast.Constant) and isinstance(c_.value, str) and "\n" in c_.value and isinstance(getattr(c_, "parent", None), (ast.BinOp, ast.JoinedStr)):
+                    par = c_.parent
+                    # "\n".join(lines) is a Call, not a BinOp: only concatenations count
+                    if isinstance(par, ast.BinOp) and isinstance(par.op, ast.Add):
+                        bad.append((n.ast, f"{norm(n.ast)[:60]} adds a line to the text"))
+        if n.kind == "stmt" and isinstance(n.ast, ast.Assign) and isinstance(n.ast.value, ast.Call) and isinstance(n.ast.value.func, ast.Attribute) \
+                and n.ast.value.func.attr in ("splitlines", "split"):
+            n_lists += 1
+    key = "generate_code:get_code:no line is inserted or removed after the labels became line numbers"
+    if bad:
+        x, why = bad[0]
+        chk.bad(R, key, f"after remove_labels has replaced every label by the number of the line it stood in front of, {why}: with remove_labels every jump then lands on the "
+                        f"wrong line", {"statements": [w for _, w in bad]}, f"{g.path}:{x.lineno} in {qual}")
+    else:
+        chk.ok(R, key, {"lists_of_lines_after": n_lists})
